@@ -42,10 +42,17 @@ Definition saturating_mul (a b : N) : N := if fits_usize (a * b) then (a * b)%N 
 (** [isize -> usize] via [try_into] *)
 Definition z_to_usize (z : Z) : option N := if (z <? 0)%Z then None else Some (Z.to_N z).
 
-(** src/util.rs *)
-Definition lcm2 (acc x : N) : N :=
-  match N.gcd acc x with 0%N => 0%N | g => saturating_mul (acc / g) x end.
-Definition lcm_list (l : list N) : N := fold_left lcm2 l 1%N.
+(** src/util.rs: lcm over the field alignments.  The code folds [acc / gcd(acc, x) * x] with a
+    saturating multiplication; [None] here is the saturated case (the result is then usize::MAX,
+    which exceeds every power of two a usize can hold, so the caller's comparison fails). *)
+Definition lcm2 (acc x : N) : option N :=
+  match N.gcd acc x with 0%N => Some 0%N | g => checked_mul (acc / g) x end.
+Fixpoint lcm_list_aux (l : list N) (acc : N) : option N :=
+  match l with
+  | [] => Some acc
+  | x :: r => match lcm2 acc x with Some a => lcm_list_aux r a | None => None end
+  end.
+Definition lcm_list (l : list N) : option N := lcm_list_aux l 1%N.
 
 Definition is_power_of_two (n : N) : bool :=
   match n with 0%N => false | Npos p => (N.eqb (N.pos p) (2 ^ N.log2 (N.pos p))) end.
